@@ -16,6 +16,7 @@
 package jwt
 
 import (
+	"crypto/ed25519"
 	"crypto/sha512"
 	"encoding/base32"
 	"encoding/base64"
@@ -254,6 +255,11 @@ func (c *ClaimsData) verify(payload string, sig []byte) bool {
 	// decode the public key
 	kp, err := nkeys.FromPublicKey(c.Issuer)
 	if err != nil {
+		return false
+	}
+	// a well-formed nkey can carry a key of any length, and Ed25519 verification
+	// panics on a public key that is not 32 bytes
+	if raw, err := nkeys.Decode(nkeys.Prefix(c.Issuer), []byte(c.Issuer)); err != nil || len(raw) != ed25519.PublicKeySize {
 		return false
 	}
 	if err := kp.Verify([]byte(payload), sig); err != nil {
